@@ -10,7 +10,7 @@ import (
 	"time"
 
 	"github.com/attestantio/dirk/core"
-	memfetcher "github.com/attestantio/dirk/services/fetcher/mem"
+	pb "github.com/wealdtech/eth2-signer-api/pb/v1"
 	e2wtypes "github.com/wealdtech/go-eth2-wallet-types/v2"
 	"pgregory.net/rapid"
 
@@ -22,32 +22,19 @@ var (
 	bAccounts = []string{"a", "b", "ab", "a1"}
 )
 
-var (
-	bOnce    sync.Once
-	bWorld   *vkit.World
-	bFetcher *memfetcher.Service
-	bErr     error
-)
-
-func setupB() error {
-	bOnce.Do(func() {
-		var specs []vkit.WalletSpec
-		k := 0
-		for _, w := range bWallets {
-			ws := vkit.WalletSpec{Name: w}
-			for _, a := range bAccounts {
-				ws.Accounts = append(ws.Accounts, vkit.AccountSpec{Name: a, KeyIndex: k})
-				k++
-			}
-			specs = append(specs, ws)
+func bSpecs() []vkit.WalletSpec {
+	var specs []vkit.WalletSpec
+	k := 0
+	for _, w := range bWallets {
+		ws := vkit.WalletSpec{Name: w}
+		for _, a := range bAccounts {
+			ws.Accounts = append(ws.Accounts, vkit.AccountSpec{Name: a, KeyIndex: k})
+			k++
 		}
-		bWorld, bErr = vkit.NewWorld(specs)
-		if bErr == nil {
-			bFetcher, bErr = vkit.NewFetcher(bWorld)
-		}
-	})
+		specs = append(specs, ws)
+	}
 
-	return bErr
+	return specs
 }
 
 // ReqB is one service request.
@@ -67,11 +54,11 @@ type CaseB struct {
 
 var opOf = map[string]string{
 	"sign": "Sign", "multisign": "Sign", "attest": "Sign beacon attestation", "attests": "Sign beacon attestation", "propose": "Sign beacon proposal",
-	"list": "Access account", "lock-account": "Lock account", "unlock-account": "Unlock account", "lock-wallet": "Lock wallet", "unlock-wallet": "Unlock wallet",
+	"create": "Create account", "list": "Access account", "lock-account": "Lock account", "unlock-account": "Unlock account", "lock-wallet": "Lock wallet", "unlock-wallet": "Unlock wallet",
 }
 
 func genCaseB(t *rapid.T) *CaseB {
-	focus := []string{"Sign", "Sign beacon attestation", "Sign beacon proposal", "Access account", "Lock account", "Unlock account", "Lock wallet", "Unlock wallet"}
+	focus := []string{"Sign", "Sign beacon attestation", "Sign beacon proposal", "Access account", "Lock account", "Unlock account", "Lock wallet", "Unlock wallet", "Create account"}
 	c := &CaseB{Config: vkit.GenPermConfig(t, []string{"alice", "bob"}, bWallets, bAccounts, focus)}
 	// shapes that make allowed requests and single-operation refusals frequent
 	switch k := rapid.IntRange(0, 9).Draw(t, "shape"); {
@@ -94,10 +81,11 @@ func genCaseB(t *rapid.T) *CaseB {
 	}
 	n := rapid.IntRange(1, 8).Draw(t, "nreqs")
 	nAcc := len(bWallets) * len(bAccounts)
+	_ = sync.Mutex{}
 	for i := 0; i < n; i++ {
 		r := ReqB{
-			Client:  rapid.SampledFrom([]string{"alice", "alice", "alice", "bob", "mallory", ""}).Draw(t, "client"),
-			Op:      rapid.SampledFrom([]string{"sign", "multisign", "attest", "attests", "propose", "list", "lock-account", "unlock-account", "lock-wallet", "unlock-wallet"}).Draw(t, "op"),
+			Client:  rapid.SampledFrom([]string{"alice", "alice", "alice", "alice", "bob", "mallory", "", "Alice", "alice ", "alic"}).Draw(t, "client"),
+			Op:      rapid.SampledFrom([]string{"sign", "multisign", "attest", "attests", "propose", "list", "lock-account", "unlock-account", "lock-wallet", "unlock-wallet", "create"}).Draw(t, "op"),
 			ByKey:   rapid.Bool().Draw(t, "bykey"),
 			ViaGRPC: rapid.Bool().Draw(t, "grpc"),
 		}
@@ -151,14 +139,20 @@ func walletLocked(st *vkit.Stack, name string) (bool, error) {
 }
 
 func runB(c *CaseB) (*outB, *vkit.Violation, error) {
-	if err := setupB(); err != nil {
-		return nil, nil, err
-	}
-	st, err := vkit.NewStack(vkit.StackOpts{World: bWorld, SharedFetcher: bFetcher, Permissions: c.Config.ForDirk()})
+	// a one-instance cluster, so that account creation runs through the real process service
+	cl, err := vkit.NewCluster(vkit.ClusterOpts{IDs: []uint64{1}, Permissions: c.Config.ForDirk(), ExtraWallets: bSpecs()})
 	if err != nil {
-		return nil, nil, fmt.Errorf("stack: %w (%s)", err, mustJSON(c.Config.ForDirk()))
+		return nil, nil, fmt.Errorf("cluster: %w (%s)", err, mustJSON(c.Config.ForDirk()))
 	}
-	defer st.Close()
+	defer cl.Close()
+	node := cl.Nodes[0]
+	st := node.Stack
+	var bAccs []*vkit.AccountInfo
+	for _, a := range node.World.Accounts {
+		if a.Wallet != vkit.NWallet {
+			bAccs = append(bAccs, a)
+		}
+	}
 	o := &outB{}
 	epoch := uint64(1)
 	for ri, r := range c.Reqs {
@@ -168,11 +162,13 @@ func runB(c *CaseB) (*outB, *vkit.Violation, error) {
 		ts := make([]vkit.Target, len(r.Accounts))
 		allowed := make([]bool, len(r.Accounts))
 		for i, ai := range r.Accounts {
-			accs[i] = bWorld.Accounts[ai]
+			accs[i] = bAccs[ai%len(bAccs)]
 			ts[i] = vkit.TargetOf(accs[i], r.ByKey)
 			switch r.Op {
 			case "lock-wallet", "unlock-wallet":
 				allowed[i] = c.Config.Allowed(r.Client, accs[i].Wallet, "", op)
+			case "create":
+				allowed[i] = c.Config.Allowed(r.Client, accs[i].Wallet, fmt.Sprintf("new%d", ri), op)
 			default:
 				allowed[i] = c.Config.Allowed(r.Client, accs[i].Wallet, accs[i].Name, op)
 			}
@@ -235,6 +231,23 @@ func runB(c *CaseB) (*outB, *vkit.Violation, error) {
 				if a.Name() == accs[0].Name {
 					served[0] = true
 				}
+			}
+		case "create":
+			nBefore := 0
+			if as, err := st.Fetcher.FetchAccounts(context.Background(), accs[0].Wallet); err == nil {
+				nBefore = len(as)
+			}
+			resp, err := node.Generate(r.Client, fmt.Sprintf("%s/new%d", accs[0].Wallet, ri), 1, 1)
+			if err != nil {
+				return o, nil, err
+			}
+			served[0] = resp.GetState() == pb.ResponseState_SUCCEEDED || len(resp.GetPublicKey()) > 0
+			nAfter := 0
+			if as, err := st.Fetcher.FetchAccounts(context.Background(), accs[0].Wallet); err == nil {
+				nAfter = len(as)
+			}
+			if !allowed[0] && nAfter != nBefore {
+				return o, vkit.Violf("refused-request-changed-state.create", "%s: creation refused by the permissions, but the wallet went from %d to %d accounts", where(0), nBefore, nAfter), nil
 			}
 		case "lock-account":
 			res, _ := st.AccMgr.Lock(vkit.Ctx(r.Client, ""), vkit.Creds(r.Client, ""), accs[0].Path())
